@@ -244,4 +244,13 @@ func init() {
 	mutant("C01", "site-credentials-replace-bearer", "C01.R8,C01.R4", "http_proxy.go", "\tif req.Header.Get(\"Authorization\") == \"\" {\n", "\tif _, _, ok := req.BasicAuth(); !ok {\n")
 	mutant("C01", "pac-strips-url-in-place", "C01.R9", "pac/pac.go", "\tif hostname == \"\" {\n\t\thostname = u.Hostname()\n\t}\n", "\tif hostname == \"\" {\n\t\thostname = u.Hostname()\n\t}\n\tu.Fragment = \"\"\n")
 	mutant("C02", "bodiless-reply-standard-phrase", "C02.R1", "internal/martian/proxy_conn.go", "\ttext := res.Status\n\tif text == \"\" {", "\ttext := \"\"\n\tif text == \"\" {")
+	mutant("C03", "response-body-read-at-exit", "C03.R6", pconn, "\tdefer res.Body.Close()\n\n\t// set request to original request manually", "\tdefer func() { res.Body.Close() }()\n\n\t// set request to original request manually")
+	mutant("C03", "connect-body-closed-early", "C03.R7", "internal/martian/proxy_connect.go", "\treq.ContentLength = -1\n}", "\treq.ContentLength = -1\n\tif req.Body != nil {\n\t\treq.Body.Close()\n\t}\n}")
+	mutant("C09", "data-dropped-before-credit", "C09.R9", relay, "\t\tif err = r.peer.sendWindowUpdates(f); err == nil {", "\t\tif f.Length == 0 {\n\t\t\tbreak\n\t\t}\n\t\tif err = r.peer.sendWindowUpdates(f); err == nil {")
+	mutant("C10", "max-frame-size-wrong-direction", "C10.R11", relay, "\t\t\t\t\tr.peer.updateMaxFrameSize(s.Val)", "\t\t\t\t\tr.updateMaxFrameSize(s.Val)")
+	mutant("C10", "hpack-table-capped", "C10.R12", relay, "\tret.decoder.SetAllowedMaxDynamicTableSize(math.MaxUint32)", "\tret.decoder.SetAllowedMaxDynamicTableSize(math.MaxUint16)")
+	mutant("C13", "gauge-closed-under-other-address", "C13.R7", "net.go", "\tif d.rd != nil {\n\t\tnetwork, address = d.rd(network, address)\n\t}\n\tconn, err := d.dialContext(ctx, network, address)", "\torig := address\n\tif d.rd != nil {\n\t\tnetwork, address = d.rd(network, address)\n\t}\n\tconn, err := d.dialContext(ctx, network, address)").and("net.go", "\t\t\td.metrics.close(address)", "\t\t\td.metrics.close(orig)")
+	mutant("C14", "sort-family-from-spelling", "C14.R6", "pac/pac_ipv6.go", "\t\treturn ips[i].To4() == nil", "\t\treturn len(ips[i].orig) > 15")
+	mutant("C08", "v2-local-offset-unchecked", "C08.R8", "proxyproto/v2.go", "\t\th.IsLocal = true\n", "\t\th.IsLocal = true\n\t\tif buf[13]&0xF0 == 0x10 {\n\t\t\toffset = ipv4AddressLen\n\t\t}\n")
+	mutant("C12", "v2-block-in-caller-buffer", "C12.R11", "proxyproto/v2.go", "\t\ttr = make([]byte, length)\n", "\t\ttr = make([]byte, length)\n\t\tif int(length) <= len(buf) {\n\t\t\ttr = buf[16 : 16+length]\n\t\t}\n")
 }
